@@ -426,7 +426,42 @@ META["C04"] = {"files": ["cif.c", "container.c", "loop.c", "utils.c", "internal/
                "assumptions": ["normalisation = ASCII case fold model"],
                "outside": ["everything the SQL schema enforces: uniqueness per container, one scalar loop, cascades on destroy, triggers; multi-call histories"]}
 
-REG = {"C04": c04, "C05": c05, "C06": c06, "C17": c17, "C20": c20, "C10": c10, "C18": c18, "C09": c09, "C08": c08, "C14": c14, "C19": c19, "C07": c07}
+
+# ------------------------------------------------------------------------------------------ C16
+def c16(tier):
+    """Safety projection: the safety-mode queries of the other properties plus ownership / global-state harnesses."""
+    qs = []
+    for w in (1, 0):
+      qs.append(Q("C16_locale_%s" % ("init_numb" if w else "autoinit_numb"), "h16_locale.c", defs={"WHICH": w}, extra=ICU_NORM_CHEAP, libtus=["value.c", "map.c", "packet.c", "utils.c"],
+                remove=[("value.c", "__CPROVER_file_local_value_c_to_digits"), ("value.c", "__CPROVER_file_local_value_c_format_text_decimal"),
+                        ("value.c", "__CPROVER_file_local_value_c_format_text_sci")],
+                unwind=3, unwindset=VAL_REC + ["strcmp.*:14", "strlen.*:8", "cpy.*:14", "strtol.*:4", "frac_bits.*:70", "strdup.*:14", "memcpy.*:14", "strcpy.*:14"], mode="safety", replay_libs=ICU_LIBS, native_extra=["stubs/icu_norm_cheap.c"],
+                bounds={"entry locale": "C or de_DE (symbolic)", "calls": "cif_value_init_numb (su zero / non-zero), cif_value_autoinit_numb (exact number)",
+                        "kernels": "to_digits / format_text_* succeed or fail symbolically"},
+                note="numeric locale restored on every path; no fesetround"))
+    # ownership / leak checks of the storage API: the C05 harness under CBMC's memory checks (leak, double free, invalid free)
+    for q in c05(tier):
+        if "create_loop_3" in q.name or "add_packet_2" in q.name:
+            continue
+        q.name = q.name.replace("C05_tx_", "C16_own_"); q.mode = "safety"; q.timeout = 400
+        q.note = "storage API under CBMC memory checks: no leak / double free / invalid free on any engine-outcome path"
+        qs.append(q)
+    # the safety-mode queries of the value / string / buffer harnesses
+    for src in (c10, c18, c09, c08, c07, c19, c17):
+        for q in src(tier):
+            if q.mode == "safety" and not q.name.startswith("C19_list_P4") and not ("C17_alloc" in q.name and "_f" in q.name and not q.name.endswith(("_f00", "_f03"))):
+                q.name = "C16_via_" + q.name
+                qs.append(q)
+    return qs
+
+
+META["C16"] = {"files": ["value.c", "map.c", "packet.c", "utils.c", "parser.c", "cif.c", "container.c", "loop.c", "pktitr.c"],
+               "functions": ["every function reached by the listed queries (see queries[].harness)"],
+               "stubs": ["as in the originating properties; setlocale = C-standard model"],
+               "assumptions": ["malloc does not fail except in the C17-derived queries", "bounds of the originating harnesses"],
+               "outside": ["code not reached by any listed query (parser productions, writer, cif_create/cif_destroy, to_double/to_digits kernels)", "sizes beyond the bounds"]}
+
+REG = {"C04": c04, "C16": c16, "C05": c05, "C06": c06, "C17": c17, "C20": c20, "C10": c10, "C18": c18, "C09": c09, "C08": c08, "C14": c14, "C19": c19, "C07": c07}
 
 
 def for_property(pid, tier):
@@ -534,3 +569,10 @@ MANI["C04"] = {
     "note": "PARTIAL by construction: the invariants of the data model (one name per container, one scalar loop, cascade on destroy, "
             "isolation of stored content) are enforced by the SQL schema inside libsqlite3, which cannot be encoded; a defect confined "
             "to schema.h or to the meaning of a statement is invisible to this check. SQLite = stubs/sqlite_env.c."}
+
+MANI["C16"] = {
+    "text": "Safety projection: CBMC's memory-safety and UB checks (pointer validity, bounds, invalid / double free, memory leak, signed "
+            "overflow, undefined shifts) over every safety-mode query of the value / string / buffer / allocation-failure harnesses and over "
+            "the storage-API harnesses for all engine outcomes; plus the numeric-locale harness (setlocale model, arbitrary entry locale).",
+    "note": "covers the functions those harnesses reach within their bounds; parser productions, the writer and the float kernels "
+            "are not reached (listed in evidence as outside); SQLite / ICU / uthash internals are stubs"}
